@@ -50,7 +50,7 @@ var stakeSets = [][]int64{
 }
 
 func cases(tier string, seed int64) []fw.Case {
-	n, blocks := 15, 450
+	n, blocks := 45, 450
 	if tier == "thorough" {
 		n, blocks = 200, 900
 	}
